@@ -51,6 +51,11 @@ Want(s, i) == LET r == Refs(s, i) IN IF s.ty[i] = FTDIR /\ r > LinkMax THEN 1 EL
 \* under dir_nlink a directory count that overflowed reads 1 and stays 1
 Saturated(s, i) == s.ty[i] = FTDIR /\ s.links[i] = 1 /\ (i \in s.sat \/ Refs(s, i) > LinkMax)
 Dangling(s) == {e \in Entries(s) : s.ent[e[1]][e[2]][1] \notin Alloc(s)}
+\* the same counts for every in-use inode at once (one pass over the entries per inode instead of one per use)
+NameMap(s) == LET E == Entries(s) IN [i \in Alloc(s) |-> Cardinality({e \in E : s.ent[e[1]][e[2]][1] = i})]
+RefMap(s) == LET N == NameMap(s) IN [i \in Alloc(s) |-> N[i] + (IF s.ty[i] = FTDIR THEN 1 + SubDirs(s, i) ELSE 0)]
+WantR(s, R, i) == IF s.ty[i] = FTDIR /\ R[i] > LinkMax THEN 1 ELSE R[i]
+SaturatedR(s, R, i) == s.ty[i] = FTDIR /\ s.links[i] = 1 /\ (i \in s.sat \/ R[i] > LinkMax)
 
 MinFree(s) == LET used == Alloc(s) IN
               CHOOSE m \in FirstIno..NInodes : m \notin used /\ \A y \in FirstIno..(m - 1) : y \in used
@@ -60,18 +65,19 @@ HasFree(s) == \E m \in FirstIno..NInodes : m \notin Alloc(s)
 \* shape of the tree: every object but the root is named, a directory exactly once and by the directory its ".." names,
 \* and every name carries the type of its inode
 Structure(s) ==
+   LET N == NameMap(s) IN
    /\ \A i \in Alloc(s) :
-        /\ i # Root => Names(s, i) >= 1
+        /\ i # Root => N[i] >= 1
         /\ s.ty[i] = FTDIR /\ i # Root =>
-              /\ Names(s, i) = 1
+              /\ N[i] = 1
               /\ s.dd[i] \in DOMAIN s.ent /\ \E n \in DOMAIN s.ent[s.dd[i]] : s.ent[s.dd[i]][n][1] = i
-        /\ s.ty[i] = FTDIR /\ Refs(s, i) > LinkMax => DirNlink
+        /\ s.ty[i] = FTDIR /\ N[i] + 1 + SubDirs(s, i) > LinkMax => DirNlink
    /\ \A e \in Entries(s) : LET t == s.ent[e[1]][e[2]] IN t[1] \in Alloc(s) => t[2] = Ft(s.ty[t[1]])
    /\ s.dd[Root] = Root
 Consistent(s) ==
    /\ Dangling(s) = {}
    /\ s.leak = 0 /\ s.zomb = {}
-   /\ \A i \in Alloc(s) : s.links[i] = Want(s, i) \/ Saturated(s, i)
+   /\ LET R == RefMap(s) IN \A i \in Alloc(s) : s.links[i] = WantR(s, R, i) \/ SaturatedR(s, R, i)
    /\ Structure(s)
 
 \* ---- releasing an inode (debugfs kill_file_by_inode; fuse2fs-style release in harness/dirdrv.c) ----
@@ -86,7 +92,7 @@ Release(s, i, fe) ==
                        !.leak = @ + (IF leaks THEN 1 ELSE 0)]
    IN s1
 \* raw operations: the history says the balance moved by exactly the change of Want
-Reskew(s1) == [s1 EXCEPT !.skew = [j \in Alloc(s1) |-> IF Saturated(s1, j) THEN 0 ELSE Refs(s1, j) - s1.links[j]]]
+Reskew(s1) == LET R == RefMap(s1) IN [s1 EXCEPT !.skew = [j \in Alloc(s1) |-> IF SaturatedR(s1, R, j) THEN 0 ELSE R[j] - s1.links[j]]]
 \* counted operations keep skew; a freshly allocated inode inherits the names that dangled at its number
 NewSkew(s, i, t) == Cardinality({e \in Entries(s) : s.ent[e[1]][e[2]][1] = i})
                     + (IF t = FTDIR THEN Cardinality({c \in DOMAIN s.dd : s.dd[c] = i}) ELSE 0)
@@ -197,8 +203,9 @@ TypeOK(s) ==
    /\ \A i \in Alloc(s) : s.ty[i] \in 1..7 /\ s.links[i] \in 0..(LinkMod - 1) /\ s.blk[i] >= 0
    /\ Root \in Alloc(s) /\ s.ty[Root] = FTDIR
 \* stored count + what raw operations took away = what the reference model demands (mod 2^16)
-LinksRule(s) == \A i \in Alloc(s) : \/ (s.links[i] + s.skew[i]) % LinkMod = Refs(s, i) % LinkMod
-                                     \/ Saturated(s, i)
+LinksRule(s) == LET R == RefMap(s) IN
+                \A i \in Alloc(s) : \/ (s.links[i] + s.skew[i]) % LinkMod = R[i] % LinkMod
+                                     \/ SaturatedR(s, R, i)
 \* no inode is both free and referenced, unless the history released it while names pointed at it
 NoFreeReferenced(s) == \A e \in Dangling(s) : s.ent[e[1]][e[2]][1] \in s.taint
 \* links = refs exactly when the history is balanced; and a balanced history leaves a consistent filesystem
